@@ -4,7 +4,7 @@ CONSTANTS
   NVals = 2
   Heights = {1, 2}
   MaxRoots = 2
-  MaxOps = 5
+  MaxOps = 4
   MaxWrites = 2
   Strides = {1}
   SimWidth = 1
